@@ -2,6 +2,7 @@
 From Coq Require Import List NArith Bool Arith Lia ZifyBool ZifyN ZifyNat.
 From Dae.gen Require Import C06_Extracted.
 From Dae Require Import C06_Spec C06_Model C06_Statements.
+From Dae Require Export C06_ProofsCarried.
 Import ListNotations.
 Open Scope N_scope.
 
